@@ -5,7 +5,7 @@ Step rig, fresh executor per input.  The client peer's transcript is parsed by h
 complete well-framed response; a rejection is followed by end-of-stream and nothing
 else; silence with the connection open is only acceptable while h11 (server role)
 does not consider the input a complete request and nothing was handed upstream.
-Response builders are covered for all valid arguments by C15 (laws L2/L7).
+Response builders: the builder laws of checks/c15.py (L2, L7, L8) are run here as 'builder' cases.
 """
 import re
 import random
@@ -172,7 +172,23 @@ def segment(rng: random.Random, data: bytes, seg: str) -> List[bytes]:
     return G.cut_at(data, G.random_cuts(rng, len(data), 2))
 
 
+def run_builder_case(case: Dict[str, Any]) -> Dict[str, Any]:
+    """Response builders (the second half of the property): the laws of checks/c15.py that generate responses
+    from builder arguments and judge them with h11 - L2 build_http_response, L7 okResponse / redirects,
+    L8 builders with a reused or Content-Length-carrying headers dict."""
+    from checks import c15
+    r = c15.run_case({'seed': case['seed'], 'i': case['i'], 'law': case['law']})
+    for v in r['viol']:
+        v['key'] = 'builder|' + v['key']
+    r['obs'] = {'kind:builder': 1, 'builder:' + case['law']: 1}
+    r['sets'] = {'outcomes': {'builder-ok' if not r['viol'] else 'builder-bad'}}
+    r['sig'] = 'builder/' + r['sig']
+    return r
+
+
 def run_case(case: Dict[str, Any]) -> Dict[str, Any]:
+    if case.get('kind') == 'builder':
+        return run_builder_case(case)
     rng = random.Random('c06:%s:%s' % (case['seed'], case['i']))
     cfg = case.get('cfg', 'proxy')
     flags = make_flags(_FLAGS[cfg], cache_key='c06:' + cfg)
@@ -340,6 +356,8 @@ def cases(tier: str, seed: int):
     for w in ['long-target', 'long-header', 'many-headers', 'long-method', 'no-crlf', 'crlf-flood']:
         for sg in ('whole', 'two'):
             yield mk(kind='oversize', what=w, seg=sg, cfg=rng.choice(['proxy', 'web']))
+    for k in range(1500 if tier == 'quick' else 45000):
+        yield mk(kind='builder', law=['L2', 'L7', 'L8'][k % 3])
     for f in ['method', 'host', 'path', 'version', 'header-name', 'header-value', 'connect-host', 'web-path', 'web-ua', 'body']:
         for rep in range(3 if tier == 'quick' else 40):
             for sg in segs:
@@ -347,7 +365,7 @@ def cases(tier: str, seed: int):
 
 
 def floors(tier: str) -> Dict[str, int]:
-    return {'outcome:rejected': 300, 'outcome:waiting': 100, 'outcome:closed-silently': 5, 'kind:trunc': 300,
+    return {'builder:L2': 300, 'builder:L7': 300, 'builder:L8': 300,'outcome:rejected': 300, 'outcome:waiting': 100, 'outcome:closed-silently': 5, 'kind:trunc': 300,
             'kind:mutate': 200, 'kind:random': 200, 'kind:nonutf8': 50, 'distinct:outcomes': 5}
 
 
